@@ -19,24 +19,24 @@ GEN = ("generated base modules (0-5 imports of all five kinds interleaved, 1-4 l
 PROPS = {
  "C06": mk("C06", ["C06_reorganise_closed_form", "C06_index_space_closed_form", "C06_mapping_position", "C06_mapping_injective", "C06_mapping_absent", "C06_function_operator_tables_exact", "C06_wf_is_an_invariant_of_every_edit", "C06_wf_holds_of_every_base_module", "C06_binding_after_any_history", "C06_binding_on_the_emitted_module"],
            GEN + "non-trivial = history non-empty and at least one reference site",
-           "Proof on the model: a well-formedness invariant of the three index spaces is preserved by every edit, and after ANY history, outside the class D02, every live id is mapped to the index at which Wasm's index rule finds that very entity in the emitted module (Proofs/ReidxInv.v), on top of the closed form of reorganise_generic and the id-map theorems. What the model cannot carry (which reference kinds the real encoder rewrites, validity of the bytes) is decided per history by evaluating, in Coq, "
-           "the abstract handle specification against the decoded real output (every function reference kind, import-section order via Wasm's index rule, validity), with known classes D02 D05 (D06 / D26 -- deleted items that stayed in the index space -- and D07 -- ImportsID used as FunctionID -- are repaired: C06_former_D06_witness_holds, C09_former_D26_witness_holds, C10_former_D07_witness_holds)."),
+           "Proof on the model: a well-formedness invariant of the three index spaces is preserved by every edit, and after ANY history, with no premise left, every live id is mapped to the index at which Wasm's index rule finds that very entity in the emitted module (Proofs/ReidxInv.v), on top of the closed form of reorganise_generic and the id-map theorems. What the model cannot carry (which reference kinds the real encoder rewrites, validity of the bytes) is decided per history by evaluating, in Coq, "
+           "the abstract handle specification against the decoded real output (every function reference kind, import-section order via Wasm's index rule, validity), with known class D05 (D02 -- import section order vs index order --, D06 / D26 -- deleted items that stayed in the index space -- and D07 -- ImportsID used as FunctionID -- are repaired: C06_former_D02_witness_holds, C06_former_D06_witness_holds, C09_former_D26_witness_holds, C10_former_D07_witness_holds)."),
  "C07": mk("C07", ["C07_index_space_closed_form", "C07_mapping_position", "C07_global_operator_tables_exact", "C07_wf_is_an_invariant_of_every_edit", "C07_wf_holds_of_every_base_module", "C07_binding_after_any_history", "C07_binding_on_the_emitted_module"],
            GEN + "biased to globals (global.get in code / initialisers / data offsets, global exports)",
-           "Proof on the model (wf invariant over every edit, binding after any history outside D02: Proofs/ReidxInv.v; shared index-space theorems) + per-history evaluation of the handle specification for every global reference kind; known class D05 (D03 -- global exports copied -- is repaired: C07_former_D03_witness_holds; so are D06 / D26 and D24 -- id collision after an iterator-level add_global: C07_former_D24_witness_holds)."),
+           "Proof on the model (wf invariant over every edit, binding after any history, no premise left: Proofs/ReidxInv.v; shared index-space theorems) + per-history evaluation of the handle specification for every global reference kind; known class D05 (D03 -- global exports copied -- is repaired: C07_former_D03_witness_holds; so are D06 / D26 and D24 -- id collision after an iterator-level add_global: C07_former_D24_witness_holds)."),
  "C08": mk("C08", ["C08_index_space_closed_form", "C08_mapping_position", "C08_every_memory_operator_is_reindexed", "C08_memory_tables_exact", "C08_wf_is_an_invariant_of_every_edit", "C08_wf_holds_of_every_base_module", "C08_binding_after_any_history", "C08_binding_on_the_emitted_module"],
            GEN + "biased to memories (i32.load/i64.store/memory.size/grow/fill/copy/v128.load/i32.atomic.load on every memory, memory exports, active data segments)",
-           "Proof on the model (wf invariant over every edit, binding after any history outside D02: Proofs/ReidxInv.v; shared index-space theorems) + per-history evaluation for every memory reference kind. The operator-table theorem (every one of the 619 operators of the pinned wasmparser that carries a memory index is classified and rewritten) is proved over tables the translator regenerates from /repo/src/ir/wrappers.rs on every check (it was false before the repair of D04)."),
+           "Proof on the model (wf invariant over every edit, binding after any history, no premise left: Proofs/ReidxInv.v; shared index-space theorems) + per-history evaluation for every memory reference kind. The operator-table theorem (every one of the 619 operators of the pinned wasmparser that carries a memory index is classified and rewritten) is proved over tables the translator regenerates from /repo/src/ir/wrappers.rs on every check (it was false before the repair of D04)."),
  "C09": mk("C09", ["C09_deleted_survivors", "C09_live_items_kept", "C09_dangling_reference_is_loud", "C09_index_space_is_exactly_the_live_items", "C09_deleted_ids_are_unmapped", "C09_wf_reached_by_every_history", "C09_index_space_total"],
            GEN + "at least one deletion (function / global / memory / import / export), with and without remaining references",
            "Proof: no deleted item survives recalculate_ids (it was false for the D06 / D26 shapes before their repair: C09_former_D26_witness_holds, C09_former_D06_witness_holds), every live item is kept, the recomputed index space is exactly the live items, a dangling id has no map entry (loud failure); per-history evaluation of 'exactly the live "
            "entities present with their identity' and 'references to deleted entities make encode panic'."),
  "C10": mk("C10", ["C10_index_space_closed_form", "C10_mapping_position", "C10_replaced_import_id_designates_the_new_body", "C10_wf_is_an_invariant_of_every_edit"],
            GEN + "at least one replace_import_in_module on modules with mixed function / non-function imports",
-           "Proof on the model (after a successful replacement the function id of the replaced import -- the id every former use carries -- is mapped to the index of the new body, for every reachable state outside D02; shared theorems) + per-history evaluation: the import is gone, every former use designates the new body, others unchanged; D07 (ImportsID used as FunctionID) is repaired: the function is resolved through the import (C10_former_D07_witness_holds)."),
+           "Proof on the model (after a successful replacement the function id of the replaced import -- the id every former use carries -- is mapped to the index of the new body, for every reachable state; shared theorems) + per-history evaluation: the import is gone, every former use designates the new body, others unchanged; D07 (ImportsID used as FunctionID) is repaired: the function is resolved through the import (C10_former_D07_witness_holds)."),
  "C11": mk("C11", ["C11_index_space_closed_form", "C11_mapping_position", "C11_converted_function_id_designates_the_import", "C11_wf_is_an_invariant_of_every_edit"],
            GEN + "at least one convert_local_fn_to_import, any order, interleaved with import additions",
-           "Proof on the model (after a successful conversion the id every former use carries is mapped to the index of the new import, for every reachable state outside D02; shared theorems) + per-history evaluation: body removed, import present, every former use designates it; known class D02 (import order vs index order)."),
+           "Proof on the model (after a successful conversion the id every former use carries is mapped to the index of the new import, for every reachable state; shared theorems) + per-history evaluation: body removed, import present, every former use designates it; D02 (import order vs index order) is repaired: the import section is emitted in index order (C11_former_D02_witness_holds, C11_former_D02_mixed_witness_holds)."),
  "C05": dict(
     parts=[dict(engine="reindex", harness_prop="C05", check_targets=["Check/CheckReidx.vo"], per_shard=300, share=0.5),
            dict(engine="lowering", harness_prop="C05low", check_targets=["Check/CheckLow.vo"], per_shard=400, share=0.5)],
